@@ -85,14 +85,80 @@ CHECKS = {
 
 
 def replay(pid, path):
+    """Re-run the confirmation recorded in a replay file against the current /repo tree.
+    Exit 1 when the violation reproduces, 0 when it does not, 2 when there is no automatic replay."""
     with open(path) as f:
         doc = json.load(f)
     from . import keval
 
-    if pid in ("C01", "C02", "C03", "C05"):
-        rec = {"request": doc["request"], "violation": doc["violation"]}
+    if pid in ("C01", "C02", "C03") and "violation" in doc and "request" in doc and doc.get("part") != "assemble kernel":
+        rec = {"request": doc["request"], "violation": doc["violation"], "dimvec": doc.get("dimvec", {}),
+               "symbolic_dimension": any(v == "sym" for v in (doc.get("dimvec") or {}).values())}
         conf = keval.confirm(rec, keval.PROPS.get(pid, {"families": ["value", "canon", "support"]})["families"])
-        print(json.dumps(conf, indent=1, default=str))
-        return 1 if conf["confirmed"] else 0
-    print("no replay for", pid)
-    return 2
+    elif pid in ("C04", "C05") and "violation" in doc and "request" in doc:
+        from . import kprogs
+
+        rec = {"request": doc["request"], "violation": doc["violation"], "program": doc.get("program"),
+               "mode": "c04" if pid == "C04" else "c05"}
+        conf = kprogs.confirm(rec, None)
+    elif pid == "C16" and "violation" in doc:
+        from . import kprogs
+
+        conf = kprogs.confirm_c16({"request": doc["request"], "violation": doc["violation"]}, None)
+    elif pid == "C06" and doc.get("part") == "1-expression-trees":
+        from . import c06
+
+        conf = c06.confirm_tree_finding(doc)
+    elif pid == "C06" and doc.get("part") == "1-statement-trees":
+        from . import c06
+
+        rp = c06.replay_statement(doc)
+        conf = {"confirmed": bool(rp.get("differs")), **rp}
+    elif pid == "C06" and doc.get("part") == "2-kernels":
+        from . import c06
+
+        conf = c06.confirm_kernel({"request": doc["request"], "violation": doc["violation"], "program": doc.get("program")}, None)
+    elif pid == "C07" and doc.get("part") == "b-expression-trees":
+        from . import c07
+
+        t, t2 = c07._parse_tree(doc["tree"]), c07._parse_tree(doc["optimised"])
+        rp = c07.replay_expr_c(t, t2, doc.get("env", {})) if c07.uses_arrays(t) else c07.replay_expr_llvm(t, t2, doc.get("env", {}))
+        conf = {"confirmed": bool(rp.get("differs")), **rp}
+    elif pid == "C07" and "violation" in doc and "request" in doc:
+        from . import c07
+
+        conf = c07.confirm_kernel({"request": doc["request"], "violation": doc["violation"], "program": doc.get("program")}, None)
+    elif pid == "C09" and doc.get("part") == "writer" and "coords" in doc:
+        from . import c09
+
+        conf = c09.replay_writer(doc)
+    elif pid == "C09" and doc.get("part") == "reader" and doc.get("structure"):
+        from tensora.format import parse_format
+
+        from . import c09
+
+        st = doc["structure"]
+        n_vals = 1
+        rp = c09.replay_reader(parse_format(doc["format"]).unwrap(), st["dims"], st["indices"],
+                               [float(k + 1) for k in range(64)][: _count_vals(doc["format"], st)])
+        conf = {"confirmed": bool(rp.get("problems")), **rp}
+        del n_vals
+    else:
+        print(json.dumps(doc, indent=1, default=str)[:4000])
+        print("no automatic replay for this record; the file above holds the counterexample and how it was confirmed")
+        return 2
+    print(json.dumps(conf, indent=1, default=str)[:4000])
+    return 1 if conf.get("confirmed") else 0
+
+
+def _count_vals(fmt_text, st):
+    from tensora.format import Mode, parse_format
+
+    fmt = parse_format(fmt_text).unwrap()
+    n = 1
+    for l, mode in enumerate(fmt.modes):
+        if mode == Mode.dense:
+            n *= st["dims"][fmt.ordering[l]]
+        else:
+            n = st["indices"][l][0][n]
+    return n
